@@ -192,8 +192,15 @@ def _mapping_entries_rule(repo: Repo, rep: Report) -> None:
         it = L.inline(lp.iter, stop=tuple(L.params))
         while isinstance(it, ast.Call) and dotted(it.func) in ("sorted", "list", "tuple") and it.args:
             it = it.args[0]
-        direct = isinstance(it, ast.Call) and isinstance(it.func, ast.Attribute) and it.func.attr == "items" and isinstance(it.func.value, ast.Attribute) \
-            and it.func.value.attr == "mapping"
+        def _direct(x: ast.AST) -> bool:
+            while isinstance(x, ast.Call) and dotted(x.func) in ("sorted", "list", "tuple") and x.args:
+                x = x.args[0]
+            return isinstance(x, ast.Call) and isinstance(x.func, ast.Attribute) and x.func.attr == "items" and isinstance(x.func.value, ast.Attribute) \
+                and x.func.value.attr == "mapping"
+
+        # the mapping itself, or a *sequence* computed from it item by item (a list keeps one element per discriminator value; a dict
+        # comprehension re-keys and can merge entries)
+        direct = _direct(it) or (isinstance(it, (ast.ListComp, ast.GeneratorExp)) and len(it.generators) == 1 and not it.generators[0].ifs and _direct(it.generators[0].iter))
         sub = f"{ra.module.relpath}:render_alias get_mapping() entries (loop #{n_loops})"
         if direct:
             rep.ok("R14.5", sub, "one `value: Class` entry per item of the spec's discriminator mapping", ra.loc(lp))
